@@ -12,7 +12,7 @@ impl Rng {
     fn below(&mut self, n: usize) -> usize { (self.next() % n as u64) as usize }
 }
 
-const ATOMS: [&str; 125] = [
+const ATOMS: [&str; 131] = [
     "fn", "f", "(", ")", "{", "}", "[", "]", "let", "x", "=", "1", ";", ":", "Int64", ",", "class", "struct", "enum", "trait", "impl",
     "if", "else", "while", "for", "in", "return", "match", "=>", "->", "::", ".", "+", "-", "*", "\"s\"", "\"a${x}b\"", "'c'", "1.5", "true",
     " ", "  ", "\n", "\r\n", "\r", "\t", "// c\n", "// c", "/* c */", "/* a\nb */", "/* unterminated", "\n\n", " \n \n", "pub", "mod", "use", "@", "é", "😀", "#",
@@ -21,6 +21,8 @@ const ATOMS: [&str; 125] = [
     "<", ">", "<=", ">=", "==", "!=", "===", "!==", "!", "&&", "||", "&", "|", "^", "<<", ">>", ">>>", "/", "%", "+=", "-=", "*=", "/=", "%=", "|=", "&=", "^=", "<<=", ">>=", ">>>=", "..", "...", "..=", "|x|",
     // literal shapes
     "0x1F", "0b101", "1_000", "1i32", "2.5e-3", "1e", "0x", "'\\n'", "'", "\"unterminated", "\"a${", "}\"", "\"${1}${2}\"",
+    // characters an editor or a tool may put into a file
+    "\u{feff}", "\u{a0}", "\u{85}", "\u{2028}", "\u{0}", "\u{200b}",
 ];
 
 fn gen_text(rng: &mut Rng, n: usize) -> String {
@@ -182,7 +184,7 @@ fn main() {
     let t0 = Instant::now();
     let mut tried = 0u64;
     // exhaustive: all sequences of <= 3 atoms over the trivia-heavy part of the alphabet
-    let small = ["fn f() {}", "x", "{", "}", " ", "\n", "\r\n", "// c\n", "// c", "/* c */", "/* a\nb */", "\n\n", "let x = 1;", "@"];
+    let small = ["fn f() {}", "x", "{", "}", " ", "\n", "\r\n", "// c\n", "// c", "/* c */", "/* a\nb */", "\n\n", "let x = 1;", "@", "\u{feff}"];
     let mut frontier = vec![String::new()];
     let mut all = vec![String::new()];
     for _ in 0..3 {
